@@ -248,8 +248,29 @@ func runC04_4(c *Ctx) {
 	}
 	fromWire, fromRead, fromHook := false, false, false
 	guarded := true
+	// origins of the stored status, looking through a helper of the package that computes it
+	var helpers []*ssa.Function
+	origins := func(v ssa.Value) []ssa.Value {
+		var out []ssa.Value
+		for _, o := range valueOrigins(v) {
+			out = append(out, o)
+			call, ok := o.(*ssa.Call)
+			if !ok || CalleeObj(call) == statusM || CalleeObj(call) == hook {
+				continue
+			}
+			if h := call.Call.StaticCallee(); h != nil && h.Pkg == fn.Pkg && len(h.Blocks) > 0 {
+				helpers = append(helpers, h)
+				Instrs(h, func(i ssa.Instruction) {
+					if ret, isRet := i.(*ssa.Return); isRet && len(ret.Results) == 1 {
+						out = append(out, valueOrigins(ReturnVals(ret)[0])...)
+					}
+				})
+			}
+		}
+		return out
+	}
 	for _, st := range stores {
-		for _, o := range valueOrigins(st.Val) {
+		for _, o := range origins(st.Val) {
 			if call, ok := o.(*ssa.Call); ok {
 				if CalleeObj(call) == statusM && isFieldLoad(call.Call.Value, hcN, inIdx) {
 					fromWire = true
@@ -279,6 +300,19 @@ func runC04_4(c *Ctx) {
 	c.Check(guarded, "a status recorded earlier is not overwritten", p.InstrPos(stores[0]), "callCmd.stat assigned only on the OK edge of its current value", "handleReply overwrites callCmd.stat unconditionally: a veto recorded by bindReply (reply header / pre-body plugin, body not decoded) is replaced by the wire status and the caller sees OK with an unfilled result")
 	// precedence: the wire status is consulted first: the hook only on the OK edge of the wire/read status
 	okPrec := false
+	for _, host := range append([]*ssa.Function{fn}, helpers...) {
+		for _, hc := range CallsTo(host, hook) {
+			for _, e := range CondCallEdges(host, okM) {
+				for _, o := range valueOrigins(e.Recv) {
+					if isFieldLoad(o, hcN, statIdx) || (func() bool { call, ok := o.(*ssa.Call); return ok && CalleeObj(call) == statusM })() {
+						if BlockDominatesInstr(e.True, hc) {
+							okPrec = true
+						}
+					}
+				}
+			}
+		}
+	}
 	for _, hc := range CallsTo(fn, hook) {
 		for _, e := range CondCallEdges(fn, okM) {
 			for _, o := range valueOrigins(e.Recv) {
